@@ -364,8 +364,39 @@ def contract_tok(preds, salt):
     return f"{len(preds)}" + "".join(" " + pred_tok(n, e) for n, e in preds) + " " + hx(salt)
 
 
+def addr_raw_cases(rng, tier):
+    """the address helpers on arbitrary address lists, in every order of small lists: addresses that share their first 8 / 16 /
+    24 / 31 bytes, that differ only in the first byte, duplicates, the empty list"""
+    import itertools
+    cases = []
+    def fam(prefix_len, n):
+        pre = bytes(rng.randrange(256) for _ in range(prefix_len))
+        return [pre + bytes(rng.randrange(256) for _ in range(32 - prefix_len)) for _ in range(n)]
+    lists = [[], [bytes(32)], [bytes(32), bytes(32)], [bytes([0xFF]) * 32, bytes(32)]]
+    for pl in (0, 1, 7, 8, 9, 16, 24, 31):
+        for n in (2, 3):
+            lists.append(fam(pl, n))
+    lists.append([bytes([i]) + bytes(31) for i in (3, 1, 2)])
+    lists.append([bytes(31) + bytes([i]) for i in (3, 1, 2)])
+    lists.append([bytes(8) + bytes([2]) + bytes(23), bytes(8) + bytes([1]) + bytes(23), bytes(7) + bytes([1]) + bytes(24)])
+    a = fam(8, 2)
+    lists.append([a[0], a[1], a[0]])
+    salts = [bytes(32), bytes([0xAB]) * 32]
+    for l in lists:
+        perms = list(itertools.permutations(range(len(l)))) if len(l) <= 3 else [tuple(range(len(l)))]
+        if tier == "quick" and len(perms) > 3:
+            perms = [perms[0], perms[-1], rng.choice(perms)]
+        for pm in perms:
+            ll = [l[i] for i in pm]
+            tok = f"{len(ll)}" + "".join(" " + hx(x) for x in ll)
+            cases.append("addr_raw set " + tok)
+            cases.append("addr_raw contract " + tok + " " + hx(rng.choice(salts)))
+    return cases
+
+
 def c17_cases(rng, tier):
     cases, oracles = [], []
+    cases += addr_raw_cases(rng, tier)
     n = 150 if tier == "quick" else 5000
     # predicates / programs
     for nn, ne in ((0, 0), (1, 1), (1000, 1000), (1001, 0), (0, 1001)):
@@ -464,6 +495,9 @@ def c19_cases(rng, tier):
                     (tp, ts, addr_t, sig, rid), (preds, salt, addr_c, sig, rid ^ 1), (preds, salt, addr_c, sig, 2),
                     (preds, salt, addr_c, sig[::-1], rid), (preds, salt, addr_c, bytes(64), rid),
                     (preds, salt, addr_c, bytes([0xFF] * 64), 0), (preds, salt, addr_c, sig, 4), (preds, salt, addr_c, sig, 255)]
+        if i == 0:
+            # every value of the recovery-id byte (ids such as 27..30 are *not* valid here)
+            variants += [(preds, salt, addr_c, sig, r_) for r_ in range(256) if r_ not in (rid, rid ^ 1, 2, 4, 255)]
         for v in variants:
             plan.append(v)
             rec_q.append(f"r{len(plan) - 1} secp_recover {hx(v[2])} {hx(v[3])} {v[4]}")
@@ -474,10 +508,11 @@ def c19_cases(rng, tier):
             continue
         tab = "0" if rid > 3 else f"1 {hx(addr_m)} {hx(sig)} {rid} {r}"
         cases.append(f"recover_contract {contract_tok(preds, salt)} {hx(sig)} {rid} {tab}")
-        if k % 3 == 0:
+        if k % 3 == 0 or rid > 3:
             cases.append(f"chksigned {contract_tok(preds, salt)} {hx(sig)} {rid} {tab}")
         # the VM's recovery op consumes the same 4 + 8 + 1 word encoding: the id word must be exactly the id
-        if k % 10 == 0 and rid <= 3:
+        n_small = sum(1 for q_ in plan[:k] if q_[4] <= 3)
+        if rid <= 3 and n_small % 4 == 0:
             from . import gen_vm
             for idw in (rid, rid + (1 << 32), rid - (1 << 32), rid + I64_MIN, rid + 4, -1):
                 t = [(addr_m, sig, rid, r)] if idw == rid else []
